@@ -1540,12 +1540,161 @@ def expand_imports(text):
     return "\n".join(out)
 
 
+# ---- guarded lemma calls in proof hints --------------------------------------------------------------------------------------
+# A hint `lemma(args);` whose lemma has a `requires` is a hazard on CHANGED code: when the precondition no longer holds Verus
+# reports it (a hint failure = undecided) and then ASSUMES the lemma's conclusion, which can hide the failure of the code's own
+# obligation behind it.  Every such call in a hint is therefore rewritten to `if verif_pre_lemma(args) { lemma(args); }`, where
+# `verif_pre_lemma` is a generated spec fn holding the conjunction of the lemma's requires clauses: on the unchanged tree the
+# proof is the same (the solver shows the guard itself), on changed code nothing is assumed that does not hold.
+GUARDED_LEMMAS = {}
+
+
+def _split_top_commas(txt):
+    """split a `requires` clause list at its top-level commas (not inside brackets, not inside `|binders|`)"""
+    parts, cur, depth, i, n = [], [], 0, 0, len(txt)
+    while i < n:
+        ch = txt[i]
+        if ch in "([{":
+            depth += 1
+        elif ch in ")]}":
+            depth -= 1
+        elif ch == "|" and i + 1 < n and txt[i + 1] == "|":
+            cur.append("||"); i += 2; continue
+        elif ch == "|":
+            # binder list of a quantifier or closure: copy up to the closing `|`
+            j = txt.find("|", i + 1)
+            if j < 0:
+                return None
+            cur.append(txt[i:j + 1]); i = j + 1; continue
+        elif ch == "," and depth == 0:
+            parts.append("".join(cur).strip()); cur = []; i += 1; continue
+        cur.append(ch); i += 1
+    last = "".join(cur).strip()
+    if last:
+        parts.append(last)
+    return [p_ for p_ in parts if p_]
+
+
+def _balanced(txt, i, op, cl):
+    """txt[i] == op: index just past the matching close"""
+    d = 0
+    for j in range(i, len(txt)):
+        if txt[j] == op:
+            d += 1
+        elif txt[j] == cl:
+            d -= 1
+            if d == 0:
+                return j + 1
+    return -1
+
+
+def collect_guarded_lemmas(template_text):
+    """returns {name: (generics, params, pre)} for plain `proof fn`s of the unit text that have a `requires`"""
+    res = {}
+    txt = re.sub(r"//[^\n]*", "", template_text)
+    for m in re.finditer(r"(?<!broadcast )\bproof fn (\w+)", txt):
+        name = m.group(1)
+        i = m.end()
+        gen = ""
+        if txt[i:i + 1] == "<":
+            j = _balanced(txt, i, "<", ">")
+            if j < 0:
+                continue
+            gen = txt[i:j]; i = j
+        if txt[i:i + 1] != "(":
+            continue
+        j = _balanced(txt, i, "(", ")")
+        if j < 0:
+            continue
+        params = txt[i + 1:j - 1].strip()
+        rest = txt[j:j + 4000]
+        mm = re.match(r"\s*requires\b", rest)
+        if not mm or "self" in re.split(r"[,:]", params)[0]:
+            continue
+        body = rest[mm.end():]
+        # the clause list ends at the first top-level `ensures` / `decreases` / `{`
+        depth = 0; end = None; k = 0
+        while k < len(body):
+            ch = body[k]
+            if ch in "([":
+                depth += 1
+            elif ch in ")]":
+                depth -= 1
+            elif ch == "{" and depth == 0 and not re.search(r"(==>|&&|\|\||==|=>|\(|,|\blet\b[^;]*=|\bif\b[^{]*|\belse|\bmatch\b[^{]*)\s*$", body[:k]):
+                end = k; break
+            elif ch == "{":
+                k = _balanced(body, k, "{", "}") ; 
+                if k < 0:
+                    break
+                continue
+            elif depth == 0 and re.match(r"\b(ensures|decreases)\b", body[k:k + 10]) and (k == 0 or not (body[k - 1].isalnum() or body[k - 1] == "_")):
+                end = k; break
+            k += 1
+        if end is None:
+            continue
+        clauses = _split_top_commas(body[:end])
+        if not clauses:
+            continue
+        res[name] = (gen, params, " && ".join(f"({c})" for c in clauses))
+    return res
+
+
+def guard_lemma_calls(text, lemmas):
+    """`lemma(args);` -> `if verif_pre_lemma(args) { lemma(args); }` for every guarded lemma named in a hint text"""
+    if not lemmas:
+        return text
+    out = text
+    for name in lemmas:
+        pos = 0
+        while True:
+            m = re.search(r"(?<![\w.:])" + re.escape(name) + r"\s*(::\s*<)?", out[pos:])
+            if not m:
+                break
+            a = pos + m.start()
+            i = pos + m.end()
+            turbo = ""
+            if m.group(1):
+                j = _balanced(out, i - 1, "<", ">")
+                if j < 0:
+                    pos = i; continue
+                turbo = "::" + out[i - 1:j]; i = j
+            k = i
+            while k < len(out) and out[k].isspace():
+                k += 1
+            if out[k:k + 1] != "(":
+                pos = i; continue
+            j = _balanced(out, k, "(", ")")
+            if j < 0:
+                pos = i; continue
+            args = out[k:j]
+            # already guarded by hand (`if pre { lemma(..) }`): leave alone
+            before = out[max(0, a - 40):a]
+            if re.search(r"\{\s*$", before) and re.search(r"\bif\b[^;{}]*\{\s*$", out[max(0, a - 400):a]):
+                pos = j; continue
+            e = j
+            while e < len(out) and out[e].isspace():
+                e += 1
+            semi = ";" if out[e:e + 1] == ";" else ""
+            endp = e + 1 if semi else j
+            rep_ = f"if verif_pre_{name}{turbo}{args} {{ {name}{turbo}{args}; }}"
+            out = out[:a] + rep_ + out[endp:]
+            pos = a + len(rep_)
+    return out
+
+
+
 def build(template_text: str, repo: str, unit: str) -> Built:
     template_text = expand_imports(expand_includes(template_text))
     ASSERT_KW[0] = "assert!" if "#[cfg(kani)]" in template_text else "assert"
     CANARY_COUNT[0] = 0
     if PATH_CANARIES[0]:
         template_text = template_text.replace("verus! {", "verus! {\npub uninterp spec fn verif_canary(k: int) -> bool;", 1)
+    HINT_SITES.clear()
+    lemmas_ = {} if re.search(r"^//! unguarded_lemmas:\s*all\b", template_text, re.M) else collect_guarded_lemmas(template_text)
+    mu_ = re.search(r"^//! unguarded_lemmas:\s*(.+)$", template_text, re.M)
+    for nm_ in (mu_.group(1).split() if mu_ else []):
+        lemmas_.pop(nm_, None)
+    used_lemmas_ = set()
     parts = parse_template(template_text)
     def _mark_hint(text):
         out_l = []
@@ -1568,10 +1717,24 @@ def build(template_text: str, repo: str, unit: str) -> Built:
                 DROPPED_HINTS.append(f"LOST: proof hint dropped, it names `{gone[0]}`, which the code no longer binds: {ins[3][:80]!r}")
                 ins[3] = f"/* hint dropped: names `{gone[0]}` */"
                 continue
-            ins[3] = _mark_hint(ins[3])
+            g_ = guard_lemma_calls(ins[3], lemmas_)
+            if g_ != ins[3]:
+                used_lemmas_.update(n_ for n_ in lemmas_ if ("verif_pre_" + n_) in g_)
+            ins[3] = _mark_hint(g_)
         for c in exx.clauses:
             if c.kind in ("loopentry", "looppre", "loophead", "looptail", "loopreturns", "loopafter"):
-                c.text = _mark_hint(c.text)
+                g_ = guard_lemma_calls(c.text, lemmas_)
+                if g_ != c.text:
+                    used_lemmas_.update(n_ for n_ in lemmas_ if ("verif_pre_" + n_) in g_)
+                c.text = _mark_hint(g_)
+    if used_lemmas_:
+        gen_ = "\n".join(f"/// generated: the requires clauses of `{n_}` (guard of its calls in proof hints)\npub open spec fn verif_pre_{n_}{lemmas_[n_][0]}({lemmas_[n_][1]}) -> bool {{ {lemmas_[n_][2]} }}" for n_ in sorted(used_lemmas_))
+        for pi_ in range(len(parts) - 1, -1, -1):
+            if parts[pi_][0] == "text" and "} // verus!" in parts[pi_][1]:
+                parts[pi_] = ("text", parts[pi_][1].replace("} // verus!", gen_ + "\n} // verus!", 1)) if isinstance(parts[pi_], tuple) else ["text", parts[pi_][1].replace("} // verus!", gen_ + "\n} // verus!", 1)]
+                break
+        else:
+            raise TemplateError("guarded lemmas: no `} // verus!` text part to place the generated guards in")
     mm_ = re.search(r"^//! mut_bindings:\s*(.+)$", template_text, re.M)
     MUT_BINDINGS[:] = mm_.group(1).split() if mm_ else []
     CALLPADS[:] = [(m3.group(1), int(m3.group(2)), m3.group(3)) for m3 in re.finditer(r"^//! callpad:\s*(\w+)\s+(\d+)\s+(.+)$", template_text, re.M)]
